@@ -317,6 +317,9 @@ FoldTokens(arg, toks, k, c, filled) ==
              (IF r.v < 0 THEN FU(c, filled)
               ELSE FoldTokens(arg, toks, k + 1, IF arg.unset THEN RemoveVal(c, r.v)
                                                 ELSE IF Contains(c, r.v) THEN c ELSE InsertSorted(c, r.v), filled))
+        \* a full fixed-size destination refuses a further element; whether a value that unique-data would drop anyway is
+        \* "a further element" is not documented (as built it is refused before the duplicate test): open
+        ELSE IF IsArr(arg.kind) /\ filled >= 3 /\ arg.uniq = "ignore" /\ Contains(SubSeq(c, 1, filled), r.v) THEN FU(c, filled)
         ELSE IF IsArr(arg.kind) /\ filled >= 3 THEN FR(FALSE, c, filled)
         ELSE IF arg.uniq # "no" /\ Contains(IF IsArr(arg.kind) THEN SubSeq(c, 1, filled) ELSE c, r.v) THEN
              (IF arg.uniq = "error" THEN FR(FALSE, c, filled)
